@@ -25,6 +25,12 @@ Streams
   refs     histories over two different reference sets                         (observable)
   version  tampered `version` objects x every operation                        (observable)
   long     seeded random histories of length 6..12 over the union alphabet     (observable)
+  gate     every tampered `version` object x load_references with EVERY combination of
+           load_genome / load_canonical_peptides / load_proteome (+ the call shapes of
+           splitFasta / summarizeFasta / invalid_protein_as_noncoding) x parseVEP and
+           parseREDItools with --index-dir, then the same calls after the matching
+           metadata is restored; expected verdict = Lean `isValid` (the hypothesis of
+           `version_gate`): not valid => rejected by every call, valid => loads   (observable)
   valid    MetaVersion.is_valid / get_semver vs the model on a grid            (internal)
 """
 from __future__ import annotations
@@ -184,7 +190,10 @@ def write_reference(root: Path, rid: int, rng) -> dict:
     with open(d / 'proteome.fasta', 'w') as fh:
         fh.write(f'>{q1}|{t1}|{g1}|OTTHUMG1|OTTHUMT1|G-201|G|{len(p1)}\n{p1}\n')
         fh.write(f'>{q2}|{t2}|{g2}|OTTHUMG2|OTTHUMT2|G-202|G|{len(p2)}\n{p2}\n')
-    return {'dir': str(d), 'proteins': [p1, p2]}
+    # a site inside the CDS of gene 1 ('+' strand) for the tiny parseVEP / parseREDItools inputs
+    site = c_a + 10
+    return {'dir': str(d), 'proteins': [p1, p2],
+            'site': {'gene': g1, 'tx': t1, 'pos': site, 'ref': genome[site - 1]}}
 
 
 # ------------------------------------------------------- real-code adapters
@@ -512,6 +521,159 @@ def explore(task):
     return cases, viols
 
 
+# ------------------------------------------------- version gate x load flags x commands
+GATE_PREFIX = [('gen', 0, P_TRYP, False, False), ('upd', P_LYSC, False)]
+# (load_genome, load_canonical_peptides, load_proteome, extra keyword arguments)
+GATE_CALLS = [(lg, lc, lp, {}) for lg in (True, False) for lc in (True, False)
+              for lp in (True, False)] + [
+    (False, False, True, {'check_protein_coding': True}),       # cli.split_fasta
+    (False, False, False, {'check_protein_coding': True}),      # cli.summarize_fasta
+    (True, False, False, {'invalid_protein_as_noncoding': True}),
+]
+
+
+def gate_call_name(c):
+    if isinstance(c, str):
+        return c + ' --index-dir'
+    lg, lc, lp, kw = c
+    return (f'load_references(load_genome={lg}, load_canonical_peptides={lc}, load_proteome={lp}'
+            + ''.join(f', {k}={v}' for k, v in kw.items()) + ')')
+
+
+def gate_apply(d: Path, c, site, work: Path):
+    """ONE real call on the index directory d -> 'valid' (loaded / command completed),
+    'invalid' (err.InvalidIndexError), 'crash:ValueError' (get_semver), anything else as is;
+    problems with what a successful call hands out are appended after '!'"""
+    from moPepGen import cli, err, params
+    from moPepGen.cli import common as mc
+    out = work / 'out.gvf'
+    if out.exists():
+        out.unlink()
+    notes = []
+    try:
+        if c == 'parseVEP':
+            alt = 'A' if site['ref'] != 'A' else 'C'
+            vep = work / 'in.tsv'
+            with open(vep, 'w') as fh:
+                fh.write('## VEP\n#Uploaded_variation\tLocation\tAllele\n')
+                fh.write('\t'.join(['v', f"chr1:{site['pos']}", alt, site['gene'], site['tx'],
+                                    'Transcript', 'missense_variant', '-', '-', '-', '-', '-',
+                                    '-', 'IMPACT=LOW']) + '\n')
+            a = ns_base(command='parseVEP', input_path=[vep], index_dir=d, source='gSNP',
+                        genome_fasta=None, proteome_fasta=None, annotation_gtf=None,
+                        output_path=out, skip_failed=False)
+            cli.parse_vep(a)
+        elif c == 'parseREDItools':
+            ref = site['ref']
+            alt = 'G' if ref != 'G' else 'A'
+            bc = [12 if b == ref else (9 if b == alt else 0) for b in 'ACGT']
+            tab = work / 'redi.txt'
+            with open(tab, 'w') as fh:
+                fh.write('Region\tPosition\tReference\tStrand\tCoverage-q30\tMeanQ\t'
+                         'BaseCount[A,C,G,T]\tAllSubs\tFrequency\tgCoverage-q\tgMeanQ\t'
+                         'gBaseCount[A,C,G,T]\tgAllSubs\tgFrequency\tgencode_feat\tgencode_gid\t'
+                         'gencode_tid\n')
+                fh.write('\t'.join(['chr1', str(site['pos']), ref, '1', '21', '40.58',
+                                    '[' + ', '.join(map(str, bc)) + ']', ref + alt, '0.43',
+                                    '25', '30.00', '-', '-', '-', 'transcript', site['gene'],
+                                    site['tx'] + '-transcript']) + '\n')
+            a = ns_base(command='parseREDItools', source='RNAEditingSite', input_path=tab,
+                        transcript_id_column=17, index_dir=d, annotation_gtf=None,
+                        output_path=out, min_coverage_alt=3, min_frequency_alt=0.1,
+                        min_coverage_rna=10, min_coverage_dna=10)
+            cli.parse_reditools(a)
+        else:
+            lg, lc, lp, kw = c
+            a = ns_base(command='load', index_dir=d)
+            set_cleavage(a, P_TRYP)
+            cp = params.CleavageParams(enzyme=P_TRYP[0], exception=P_TRYP[1],
+                                       miscleavage=int(P_TRYP[2]), min_mw=P_TRYP[3],
+                                       min_length=P_TRYP[4], max_length=P_TRYP[5]) if lc else None
+            genome, anno, proteome, pool = mc.load_references(
+                a, load_genome=lg, load_canonical_peptides=lc, load_proteome=lp,
+                cleavage_params=cp, **kw)
+            pl = _W['payload'][0]
+            want_prot = lp or kw.get('invalid_protein_as_noncoding', False)
+            for nm, obj, asked in (('genome', genome, lg), ('proteome', proteome, want_prot),
+                                   ('pool', pool, lc)):
+                if (obj is not None) != asked:
+                    notes.append(f'{nm}-{"missing" if asked else "unasked"}')
+            if lg and genome is not None and canon_seqdict(genome) != pl['genome']:
+                notes.append('genome-differs')
+            if want_prot and proteome is not None and canon_seqdict(proteome) != pl['proteome']:
+                notes.append('proteome-differs')
+            if lc and pool is not None and fp_pool(pool) != direct_fp(0, P_TRYP):
+                notes.append('pool-differs')
+            if anno is None or canon_anno(anno) != pl['anno']:
+                notes.append('annotation-differs')
+        if isinstance(c, str):
+            recs = [ln for ln in open(out) if not ln.startswith('#')] if out.exists() else None
+            if recs is None:
+                notes.append('no-output')
+            elif len(recs) != 1 or site['tx'] not in recs[0] and site['gene'] not in recs[0]:
+                notes.append(f'{len(recs)}-records')
+        res = 'valid'
+    except err.InvalidIndexError:
+        res = 'invalid'
+    except ValueError as e:
+        res = 'reject:no-pool' if 'No canonical peptide pool match' in str(e) else 'crash:ValueError'
+    except Exception as e:      # noqa: BLE001
+        res = f'crash:{type(e).__name__}'
+    if res != 'valid' and out.exists():
+        notes.append('output-written')
+    return res + ('!' + ','.join(notes) if notes else '')
+
+
+def gate_explore(task):
+    """Worker: generateIndex + updateIndex, put the version object v into metadata.json, run every
+    call of GATE_CALLS and the two parser commands; restore the metadata, run them again.
+    Returns [(version shown to the model, real verdict, case description)]"""
+    import logging
+    logging.disable(logging.CRITICAL)
+    refs, _stream, v, tmproot = task
+    init_world(refs)
+    root = Path(tempfile.mkdtemp(prefix='c12_gate_', dir=tmproot))
+    cases = []
+    try:
+        d = root / 'index'
+        for op in GATE_PREFIX:
+            res, _ = apply_op(d, op)
+            if res != 'ok':
+                raise RuntimeError(f'gate: {op} -> {res}')
+        work = root / 'work'
+        work.mkdir()
+        pristine = open(d / 'metadata.json').read()
+        site = refs[0]['site']
+        for state in ('tampered', 'restored'):
+            if state == 'tampered':
+                apply_op(d, ('tamper',) + tuple(v))
+                shown = tuple(v)
+            else:
+                with open(d / 'metadata.json', 'w') as fh:
+                    fh.write(pristine)
+                rec = json.loads(pristine)['version']
+                shown = (rec['python'], rec['biopython'], rec['mopepgen'])
+            before = observe_dir(d)
+            for c in ['parseVEP'] + GATE_CALLS + ['parseREDItools']:
+                real = gate_apply(d, c, site, work)
+                after = observe_dir(d)
+                if after != before:
+                    real += '!directory-changed'
+                cases.append((shown, real, {
+                    'gate': {'recorded_version': {'python': shown[0], 'biopython': shown[1],
+                                                  'mopepgen': shown[2]},
+                             'metadata': state, 'tamper': list(v), 'call': gate_call_name(c)},
+                    'ops': [op_json(o) for o in GATE_PREFIX + [('tamper',) + tuple(v)]],
+                    'vep_site': site if isinstance(c, str) else None}))
+    finally:
+        shutil.rmtree(root, ignore_errors=True)
+    return cases
+
+
+def run_task(task):
+    return gate_explore(task) if task[1] == 'gate' else explore(task)
+
+
 def make_refs(tmproot, rng_of):
     """two reference sets that separate the parameter sets (else a mixed-up pool would be
     invisible); redrawn (deterministically) until they do"""
@@ -632,9 +794,20 @@ def run(ctx: common.Ctx):
                 ops.append(o)
             tasks.append((refs, 'long', ops, [], 0, tmproot))
 
+        # gate: every tampered version object x every load-flag combination x parser commands
+        for v in vers:
+            tasks.append((refs, 'gate', v, tmproot))
+
         nproc = min(14, os.cpu_count() or 2)
         with mp.get_context('fork').Pool(nproc) as pool:
-            results = pool.map(explore, tasks, chunksize=1)
+            results = pool.map(run_task, tasks, chunksize=1)
+
+        gate_cases = []
+        for res, task in zip(results, tasks):
+            if task[1] == 'gate':
+                gate_cases.extend(res)
+        results = [r for r, t in zip(results, tasks) if t[1] != 'gate']
+        tasks = [t for t in tasks if t[1] != 'gate']
 
         by_stream = {}
         pending = []
@@ -663,6 +836,26 @@ def run(ctx: common.Ctx):
             ctx.count(st, 'histories', len(uniq))
             ctx.count(st, 'successful_loads', sum(1 for _, r, _ in uniq if r.startswith('ok:pool')))
 
+        # gate: expected verdict from the Lean model of the version gate (`isValid` on the
+        # recorded version, the hypothesis of Props.C12.version_gate): every call must reject a
+        # version that is not valid and load a valid one, whatever the load flags / command
+        cases = [(f'C12\tvalid\t{ver}\t{sv[0]}\t{sv[1]}\t{sv[2]}', real, obj)
+                 for sv, real, obj in gate_cases
+                 if not any(ch in ''.join(sv) for ch in '|:;\t')]
+        ctx.diff_stream(
+            'gate', cases, True, lambda o: o, lambda o: o != 'valid',
+            'gate: load_references / a parser command with --index-dir does not treat the index '
+            'as the version gate demands (real = what the call did: valid = loaded and handed out '
+            'the stored data, invalid = InvalidIndexError; model = verdict of the proved gate on '
+            'the versions recorded in metadata.json): an index whose recorded versions do not '
+            'match must be rejected by EVERY load, a matching one must load')
+        ctx.count('gate', 'tampered_versions', len(vers))
+        ctx.count('gate', 'calls_per_version_and_state', len(GATE_CALLS) + 2)
+        ctx.count('gate', 'rejected_calls', sum(1 for _l, r, _o in cases if r != 'valid'))
+        ctx.count('gate', 'restored_loads', sum(1 for _l, r, o in cases
+                                                if o['gate']['metadata'] == 'restored'
+                                                and r == 'valid'))
+
         # valid: MetaVersion.is_valid / get_semver (internal helper)
         comps = ['', '0', '1', '2', '3', '10', '03', 'x', '1a']
         grid = set(v for v in vers)
@@ -687,7 +880,11 @@ def run(ctx: common.Ctx):
             'thorough), prefix tree with directory snapshots, each history started on an absent '
             'directory; alias/symlink/refs: all histories <= L over alphabets of parameter '
             'spellings with the same key, --gtf-symlink, two reference sets; version: 19 tampered '
-            'version objects x all histories <= 2 after generate+update; long: seeded random '
+            'version objects x all histories <= 2 after generate+update; gate: the same 19 version '
+            'objects x {8 combinations of load_genome/load_canonical_peptides/load_proteome, the '
+            'splitFasta / summarizeFasta / invalid_protein_as_noncoding call shapes, parseVEP and '
+            'parseREDItools with --index-dir on a one-record input} x {tampered, restored '
+            'metadata}, verdict compared with the Lean gate; long: seeded random '
             'histories (6..12 ops). A case is one history; compared: result class of its last '
             'operation, canonical metadata.json, listing with content class of every file. '
             'non-trivial = the directory holds at least one pool file after the history. '
@@ -708,6 +905,25 @@ def replay(ctx: common.Ctx, data):
     """re-run the operation history of a replay file on the real code and print every step"""
     sys.path.insert(0, common.REPO)
     rp = data.get('replay', data)
+    gate = rp.get('case', {}).get('gate') if isinstance(rp.get('case'), dict) else None
+    if gate:
+        # version gate x load flags: re-run every call for the tampered version object
+        tmproot = tempfile.mkdtemp(prefix='verif_c12_replay_', dir='/tmp')
+        try:
+            refs = make_refs(tmproot, lambda k: common.rng_for(data.get('seed', 0), 'C12',
+                                                               'reference', k))
+            bad = 0
+            for shown, real, obj in gate_explore((refs, 'gate', tuple(gate['tamper']), tmproot)):
+                g = obj['gate']
+                same = (g['metadata'], g['call']) == (gate['metadata'], gate['call'])
+                print(f"{g['metadata']:9s} recorded={'|'.join(shown)}  {g['call']} => {real}"
+                      + (f"   <-- the reported case; proved gate says {rp.get('model')}"
+                         if same else ''))
+                if same and real != rp.get('model'):
+                    bad += 1
+            return 1 if bad else 0
+        finally:
+            shutil.rmtree(tmproot, ignore_errors=True)
     ops = rp.get('ops') or rp.get('case', {}).get('ops')
     if not ops:
         print('replay file has no operation history')
